@@ -184,23 +184,28 @@ def esInput (z alg apu apv : Bytes) (outLen : Nat) : Bytes :=
 def puInput (ze zs alg apu apv pubInfo : Bytes) : Bytes :=
   ((((KdfHash.new.startPass).update ze).update zs).hashParams alg apu apv pubInfo []).acc
 
+/-- which private key meets which public key: `receive` ⇒ the recipient's key pair against the other party's public key,
+    otherwise the other party's key pair against the recipient's public key -/
+def exchange (D : DhOps) (other rcp : Key) (receive : Bool) : Res Bytes :=
+  if receive then keyExchange D rcp other else keyExchange D other rcp
+
 /-- `EcdhEs::derive_key_bytes` for an output slice of `outLen` bytes -/
 def deriveEsBytes (D : DhOps) (hash : Bytes → Bytes) (eph rcp : Key) (alg apu apv : Bytes) (receive : Bool)
-    (outLen : Nat) : Res Bytes := do
+    (outLen : Nat) : Res Bytes :=
   if outLen > 32 then .err .unsupported
   else
-    let z ← if receive then keyExchange D rcp eph else keyExchange D eph rcp
+    exchange D eph rcp receive >>= fun z =>
     takeKey (hash (esInput z alg apu apv outLen)) outLen
 
-/-- `Ecdh1PU::derive_key_bytes` -/
+/-- `Ecdh1PU::derive_key_bytes` (Ze first, then Zs, then the `pub_info` buffer) -/
 def derive1puBytes (D : DhOps) (hash : Bytes → Bytes) (eph snd rcp : Key) (alg apu apv ccTag : Bytes) (receive : Bool)
-    (outLen : Nat) : Res Bytes := do
+    (outLen : Nat) : Res Bytes :=
   if outLen > 32 then .err .unsupported
   else if ccTag.length > 128 then .err .unsupported
   else
-    let ze ← if receive then keyExchange D rcp eph else keyExchange D eph rcp
-    let zs ← if receive then keyExchange D rcp snd else keyExchange D snd rcp
-    let pi ← pubInfo1pu outLen ccTag
+    exchange D eph rcp receive >>= fun ze =>
+    exchange D snd rcp receive >>= fun zs =>
+    pubInfo1pu outLen ccTag >>= fun pi =>
     takeKey (hash (puInput ze zs alg apu apv pi)) outLen
 
 /-- the `KeyAlg` requested for the derived key -/
@@ -301,10 +306,10 @@ structure BoxLaws (B : BoxOps) : Prop where
   beforenm_comm : ∀ a b, B.beforenm a (B.pub b) = B.beforenm b (B.pub a)
   nonce_len : ∀ x, (B.nonceHash x).length = 24
 
-/-- IDEALISATION (holds only up to forgery probability): whatever opens was sealed, and a sealed box pins key, nonce, message -/
+/-- IDEALISATION (true of the real box only up to forgery probability): whatever opens under a key and nonce was sealed
+    under that key and nonce -/
 structure BoxIdeal (B : BoxOps) : Prop where
   auth : ∀ k n c t m, B.openBox k n c t = some m → B.sealBox k n m = (c, t)
-  seal_inj : ∀ k n m k' n' m', B.sealBox k n m = B.sealBox k' n' m' → k = k' ∧ n = n' ∧ m = m'
 
 def CBOX_NONCE_LENGTH : Nat := 24
 def CBOX_KEY_LENGTH : Nat := 32
